@@ -1245,19 +1245,27 @@ def check(ck):
                 return arms[0] if arms[0] == arms[1] else MAYBE
             if isinstance(v, ast.BoolOp) and isinstance(v.op, ast.Or):
                 return NOTNONE if nullability(v.values[-1]) == NOTNONE else MAYBE
-            xv = A.norm(v)
-            if shape is not None and xv.startswith("FunctionReference.parse_qualified_name(") and xv.endswith(("['module']", "['function']")):
+            # a mandatory group of the parsed name, read off the parse result by subscript or .get
+            base = key = None
+            if isinstance(v, ast.Subscript) and A.const_str(v.slice):
+                base, key = v.value, A.const_str(v.slice)
+            elif isinstance(v, ast.Call) and isinstance(v.func, ast.Attribute) and v.func.attr in ("get", "__getitem__", "group") and v.args and A.const_str(v.args[0]):
+                base, key = v.func.value, A.const_str(v.args[0])
+            if shape is not None and key in ("module", "function") and isinstance(base, ast.Call) and A.call_attr(base) == "parse_qualified_name":
                 return NOTNONE
             return MAYBE
 
-        from .c11 import _bound_args
+        from .c11 import _bound_args, _unrolled
         ue = ck.repo.func("external.UnboundExternalMementoFunction.__init__")
         ue_params = [a.arg for a in ue.node.args.args if a.arg != "self"]
-        bound = _bound_args(fq, call, ue_params)
+        # (names bound by unpacking a literal table of parts are read as the single assignments they stand for)
+        fqu = _unrolled(fq)
+        call_u = fqu.calls("UnboundExternalMementoFunction")[0] if fqu is not fq else call
+        bound = _bound_args(fqu, call_u, ue_params)
         if bound is None:
             raise AnalysisError("from_qualified_name builds the external stub with */** arguments: bindings cannot be told")
         for p_, (v_, a_) in bound.items():
-            binding[p_] = nullability(fq.expand(v_, a_))
+            binding[p_] = nullability(fqu.expand(v_, a_))
         env = {}
         defaults = ue.node.args.defaults
         params = [a.arg for a in ue.node.args.args]
